@@ -20,7 +20,7 @@ use std::sync::{Arc, Mutex};
 pub fn def() -> PropDef {
     PropDef {
         id: "C16",
-        rule: "2 threads x scripts of <=3 steps and 3 threads x scripts of <=2 steps over {fail with message A/B/C/D through four different table entries, succeed, read description through the thread's last CErr*}; every interleaving of the steps (step-level points, unbounded) and, with the library's yield points around the error store enabled, every interleaving with at most 2 preemptions; each execution runs on real OS threads under a baton scheduler and is compared with the per-thread expectation; distinct classes = (threads, script shapes, whether a foreign failure lies between a failure and its read)",
+        rule: "2 threads x scripts of <=3 steps and 3 threads x scripts of <=2 steps over {fail with message A/B/C/D through four different table entries, succeed, read description through the thread's last CErr*, look again at the description text retrieved earlier}; every interleaving of the steps (step-level points, unbounded) and, with the library's yield points around the error store enabled, every interleaving with at most 2 preemptions; each execution runs on real OS threads under a baton scheduler and is compared with the per-thread expectation; distinct classes = (threads, script shapes, whether a foreign failure lies between a failure and its read)",
         run,
         replay,
         bounds: |t| json!({"threads": [2, 3], "steps_2_threads": t.pick(3, 4), "steps_3_threads": 2, "preemption_bound_with_library_points": t.pick(2, 3), "max_executions_per_tuple": 20000}),
@@ -45,6 +45,9 @@ pub enum Step {
     Fail(u8),
     Succeed,
     Read,
+    /// look again at the description text retrieved earlier (the char pointer the thread still holds),
+    /// without any table call: it must have stayed intact
+    Peek,
 }
 
 fn step_char(s: Step) -> char {
@@ -52,6 +55,7 @@ fn step_char(s: Step) -> char {
         Step::Fail(k) => (b'A' + k) as char,
         Step::Succeed => 's',
         Step::Read => 'r',
+        Step::Peek => 'p',
     }
 }
 
@@ -60,6 +64,7 @@ fn parse_script(s: &str) -> Vec<Step> {
         .map(|c| match c {
             's' => Step::Succeed,
             'r' => Step::Read,
+            'p' => Step::Peek,
             c => Step::Fail(c as u8 - b'A'),
         })
         .collect()
@@ -76,6 +81,7 @@ fn base_packet() -> Vec<u8> {
 struct ThreadCtx {
     pp: ParsedPacket,
     last_err: *const CErr,
+    last_desc: *const libc::c_char,
     last_msg: Option<String>,
 }
 
@@ -110,6 +116,7 @@ fn do_step(t: &FnTable, c: &mut ThreadCtx, s: Step) -> Result<String, String> {
                 }
                 c.last_err = err;
                 let d = (t.error_description)(err);
+                c.last_desc = d;
                 let msg = CStr::from_ptr(d).to_string_lossy().to_string();
                 c.last_msg = Some(msg.clone());
                 Ok(format!("fail{}={}", k, msg))
@@ -128,7 +135,15 @@ fn do_step(t: &FnTable, c: &mut ThreadCtx, s: Step) -> Result<String, String> {
                     return Ok("read:none".into());
                 }
                 let d = (t.error_description)(c.last_err);
+                c.last_desc = d;
                 let msg = CStr::from_ptr(d).to_string_lossy().to_string();
+                Ok(format!("read={}", msg))
+            }
+            Step::Peek => {
+                if c.last_desc.is_null() {
+                    return Ok("read:none".into());
+                }
+                let msg = CStr::from_ptr(c.last_desc).to_string_lossy().to_string();
                 Ok(format!("read={}", msg))
             }
         }
@@ -138,7 +153,7 @@ fn do_step(t: &FnTable, c: &mut ThreadCtx, s: Step) -> Result<String, String> {
 /// the message each failing step produces, taken single-threaded (and equal to the native Display)
 fn expected_messages() -> Vec<String> {
     let t = fn_table();
-    let mut c = ThreadCtx { pp: crate::subj::parse(&base_packet()).unwrap(), last_err: std::ptr::null(), last_msg: None };
+    let mut c = ThreadCtx { pp: crate::subj::parse(&base_packet()).unwrap(), last_err: std::ptr::null(), last_desc: std::ptr::null(), last_msg: None };
     (0..4u8)
         .map(|k| {
             do_step(&t, &mut c, Step::Fail(k)).unwrap();
@@ -163,7 +178,7 @@ fn execute(scripts: &[Vec<Step>], libpoints: bool, prefix: &[usize]) -> (Exec, V
         let log = log.clone();
         bodies.push(Box::new(move |h: &Handle| {
             let t = fn_table();
-            let mut c = ThreadCtx { pp: crate::subj::parse(&base_packet()).unwrap(), last_err: std::ptr::null(), last_msg: None };
+            let mut c = ThreadCtx { pp: crate::subj::parse(&base_packet()).unwrap(), last_err: std::ptr::null(), last_desc: std::ptr::null(), last_msg: None };
             if libpoints {
                 let h2 = h.clone();
                 verif_hooks::set_callback(Some(Box::new(move |kind| {
@@ -211,7 +226,7 @@ fn judge(scripts: &[Vec<Step>], obs: &[Obs], exp: &[String]) -> Result<bool, Str
                     }
                     last = Some((gpos, &exp[*k as usize]));
                 }
-                Step::Read => {
+                Step::Read | Step::Peek => {
                     if let Some((fpos, m)) = last {
                         let want = format!("read={}", m);
                         if o.text != want {
@@ -230,7 +245,7 @@ fn judge(scripts: &[Vec<Step>], obs: &[Obs], exp: &[String]) -> Result<bool, Str
 }
 
 fn scripts_upto(n: usize) -> Vec<Vec<Step>> {
-    let alpha = [Step::Fail(0), Step::Fail(1), Step::Fail(2), Step::Fail(3), Step::Succeed, Step::Read];
+    let alpha = [Step::Fail(0), Step::Fail(1), Step::Fail(2), Step::Fail(3), Step::Succeed, Step::Read, Step::Peek];
     let mut out: Vec<Vec<Step>> = vec![];
     let mut cur: Vec<Vec<Step>> = vec![vec![]];
     for _ in 0..n {
@@ -246,7 +261,7 @@ fn scripts_upto(n: usize) -> Vec<Vec<Step>> {
         cur = nxt;
     }
     // keep scripts with at least one failure; a read before any failure is pointless
-    out.retain(|s| s.iter().any(|x| matches!(x, Step::Fail(_))) && !matches!(s[0], Step::Read));
+    out.retain(|s| s.iter().any(|x| matches!(x, Step::Fail(_))) && !matches!(s[0], Step::Read | Step::Peek));
     out
 }
 
@@ -360,7 +375,7 @@ fn run(ctx: &mut Ctx, rep: &mut Report) {
     }
     // 3 threads: a failure/read thread against two failing threads
     let s3: Vec<Vec<Step>> = scripts_upto(2).into_iter().filter(|s| s.len() == 2).collect();
-    let readers: Vec<Vec<Step>> = s3.iter().filter(|s| s[1] == Step::Read).cloned().collect();
+    let readers: Vec<Vec<Step>> = s3.iter().filter(|s| s[1] == Step::Read || s[1] == Step::Peek).cloned().collect();
     let failers: Vec<Vec<Step>> = vec![vec![Step::Fail(1)], vec![Step::Fail(2), Step::Fail(3)], vec![Step::Fail(0), Step::Read]];
     for a in &readers {
         for b in &failers {
